@@ -148,6 +148,9 @@ def worker_main(argv):
         from . import gen
         if gen.LONG[0]:
             ctx.stratum('sentence of 120..300 tokens', gen.LONG[0])
+        if gen.LOOKALIKE[0]:
+            ctx.stratum('token that resembles punctuation but is none',
+                        gen.LOOKALIKE[0])
     except Exception:
         import traceback
         status = 'crash'
